@@ -391,6 +391,30 @@ def doc_pos_names(f):
     return names
 
 
+_DOCRET = {}
+
+
+def doc_return_type(f):
+    """the return type of a function as the SHIPPED documentation prints it (`-> bytes`, `-> void`, `-> PktGen` ...), lower case;
+    None when the page or the signature is not found"""
+    from . import core
+    path = f['path']
+    if path in _DOCRET: return _DOCRET[path]
+    if '.' in path: page = path.split('.')[0].replace('::', '/') + '.md'
+    else:
+        parts = path.split('::')[:-1]
+        page = ('/'.join(parts) + '/README.md') if parts else 'README.md'
+    ret = None
+    try:
+        txt = open(os.path.join(core.REPO, 'docs', page), encoding='utf-8').read()
+        m = re.search(r'resynth fn %s\s*\((.*?)\)\s*->\s*([A-Za-z_0-9]+)\s*;' % re.escape(f['name']), txt, re.S)
+        if m: ret = m.group(2).lower()
+    except OSError:
+        pass
+    _DOCRET[path] = ret
+    return ret
+
+
 def name_mandatory(src, lib, rng, p=(1, 2)):
     """Semantics-preserving rewrite (C11): in calls of library functions, pass the mandatory parameters by name instead of
     by position (in declaration order or reversed). Only calls whose leading arguments are all positional are touched."""
